@@ -12,7 +12,7 @@ import random
 
 from harness import jutil
 from harness.core import MachineryError
-from harness.enginecases import engine_cfg, render_graph, IDIOMS, family, FAMILIES
+from harness.enginecases import engine_cfg, render_graph, render_import_graph, IDIOMS, IMPORT_IDIOMS, family, FAMILIES
 from harness.tlc import run_tlc, cases, validate_traces
 
 META = dict(
@@ -36,7 +36,8 @@ QUERIES = ['infer', 'goto', 'complete', 'get_references', 'help', 'get_signature
 
 def run_program(arg):
     """Execute every query at every use position of a program under the recorder + watchdog."""
-    name, src, positions, methods = arg
+    name, src, positions, methods = arg[:4]
+    files = arg[4] if len(arg) > 4 else None          # {relative path: text}: a scratch project; src = name of the buffer file
     import signal
     from harness import enginerec
     enginerec.install()
@@ -48,9 +49,22 @@ def run_program(arg):
         raise Hang()
     signal.signal(signal.SIGALRM, alarm)
     out = []
+    root = None
+    if files is not None:
+        import os
+        import tempfile
+        root = tempfile.mkdtemp(prefix='c15proj_', dir=os.environ.get('VERIF_CACHE_BASE') or None)
+        for rel, text in files.items():
+            os.makedirs(os.path.dirname(os.path.join(root, rel)), exist_ok=True)
+            with open(os.path.join(root, rel), 'w') as f:
+                f.write(text)
     for (line, col) in positions:
         for m in methods:
-            s = jutil.script(src)
+            if files is not None:
+                import jedi
+                s = jedi.Script(files[src], path=os.path.join(root, src), project=jedi.Project(root), environment=jutil.env())
+            else:
+                s = jutil.script(src)
             signal.alarm(60)
             try:
                 r, evs, steps = enginerec.query(lambda: getattr(s, m)(line, col))
@@ -120,6 +134,24 @@ def run(ctx):
         jobs.append(('graph%d' % i, src, pos, ['infer', 'goto', 'complete'] if quick else QUERIES))
     for k, src in IDIOMS.items():
         jobs.append(('idiom:' + k, src, last_positions(src), QUERIES))
+    # the same graphs with one module per node and import edges (plain / from / star): import cycles
+    nimp = 0
+    for i, g in enumerate(graphs[:60 if quick else 700]):
+        dep = {j + 1: d for j, d in enumerate(g['dep'])}
+        mode = ['star', 'from', 'plain', 'star'][i % 4]
+        files, uses = render_import_graph(dep, mode)
+        by_file = {}
+        for n, (fn, ln) in uses.items():
+            by_file.setdefault(fn, []).append((ln, 0))
+        for fn, pos in sorted(by_file.items()):
+            jobs.append(('importgraph:%s:%d' % (mode, i), fn, pos, ['infer', 'goto', 'complete'], files))
+            nimp += 1
+    for k, (files, main) in IMPORT_IDIOMS.items():
+        lines = files[main].rstrip('\n').split('\n')
+        pos = [(len(lines), len(lines[-1])), (len(lines), 0), (len(lines) - 1, len(lines[-2]))]
+        jobs.append(('importidiom:' + k, main, pos, QUERIES, files))
+    ctx.coverage['import_graph_programs'] = nimp
+    ctx.coverage['import_idioms'] = len(IMPORT_IDIOMS)
     fam_ns = [2, 4, 8, 16, 32] if quick else [2, 4, 8, 16, 32, 64]
     for fam in FAMILIES:
         for n in fam_ns:
@@ -146,10 +178,13 @@ def run(ctx):
         for r in rs:
             nq += 1
             desc = {'program': job[0], 'source': job[1] if len(job[1]) < 3000 else job[1][:3000], 'method': r['m'], 'pos': r['pos']}
+            if len(job) > 4:
+                desc['files'] = job[4]
             if r['outcome'] == 'HANG':
                 ctx.violation('hang:%s' % job[0].split(':')[0], 'query did not return within 60 s', desc)
             elif r['outcome'] == 'RecursionError':
-                ctx.violation('RecursionError:%s' % job[0].split(':')[1 if ':' in job[0] else 0],
+                ctx.violation('RecursionError:%s' % ('-'.join(job[0].split(':')[:2]) if job[0].startswith('importgraph')
+                                                     else job[0].split(':')[1 if ':' in job[0] else 0]),
                               'query raised RecursionError instead of giving up', desc)
             if r['events']:
                 traces.append(r['events'])
@@ -157,8 +192,8 @@ def run(ctx):
             if job[0].startswith('family:') and r['m'] == 'infer' and r['outcome'] == 'ok':
                 _, fam, n = job[0].split(':')
                 steps_by.setdefault(fam, {})[int(n)] = r['steps']
-        if job[0].startswith(('graph', 'idiom')):
-            ctx.sample({'program': job[0], 'source': job[1][:600], 'outcomes': sorted(set(r['outcome'] for r in rs)),
+        if job[0].startswith(('graph', 'idiom', 'importgraph', 'importidiom')):
+            ctx.sample({'program': job[0], 'source': (job[4][job[1]] if len(job) > 4 else job[1])[:600], 'outcomes': sorted(set(r['outcome'] for r in rs)),
                         'max_steps': max([r['steps'] for r in rs] or [0])}, limit=5)
     ctx.coverage['queries_executed'] = nq
     ctx.coverage['scaling_steps'] = steps_by
